@@ -111,6 +111,20 @@ def _c06_shared_warm(plan, violation, entry):
     return False
 
 
+@trigger("c04_extended_after_history")
+def _c04_extended_after_history(plan, violation, entry):
+    """The query is extended (`with query: Pred(..)`) after it has already been evaluated (completely or partly)."""
+    if violation.get("oracle") not in entry.get("oracles", []):
+        return False
+    seen = set()
+    for op in plan["ops"]:
+        if op[0] in ("full", "take", "fault", "probe", "the", "thefault", "probe_the") and len(op) > 1:
+            seen.add("q" + str(op[1])[1:])
+        if op[0] == "extend" and ("q" + str(op[1])[1:]) in seen:
+            return True
+    return False
+
+
 def classify(prop_id: str, plan: dict, violation: dict) -> Optional[dict]:
     """Return the open finding whose trigger matches this minimised failing plan, if any."""
     for entry in load().get("open", []):
